@@ -1006,6 +1006,8 @@ sf_command	(SNDFILE *sndfile, int command, void *data, int datasize)
 					psf->error = SFE_BAD_COMMAND_PARAM ;
 				return 0 ;
 				} ;
+			if (datasize <= 0)
+				return 0 ;
 			snprintf (data, datasize, "%s", sf_version_string ()) ;
 			return strlen (data) ;
 
@@ -1051,6 +1053,8 @@ sf_command	(SNDFILE *sndfile, int command, void *data, int datasize)
 	if (sndfile == NULL && command == SFC_GET_LOG_INFO)
 	{	if (data == NULL)
 			return (sf_errno = SFE_BAD_COMMAND_PARAM) ;
+		if (datasize <= 0)
+			return 0 ;
 		snprintf (data, datasize, "%s", sf_parselog) ;
 		return strlen (data) ;
 		} ;
@@ -1146,6 +1150,8 @@ sf_command	(SNDFILE *sndfile, int command, void *data, int datasize)
 		case SFC_GET_LOG_INFO :
 			if (data == NULL)
 				return SFE_BAD_COMMAND_PARAM ;
+			if (datasize <= 0)
+				return 0 ;
 			snprintf (data, datasize, "%s", psf->parselog.buf) ;
 			return strlen (data) ;
 
